@@ -492,3 +492,96 @@ func TestC04_Rapid(t *testing.T) {
 	})
 	col("C04").Completed("TestC04_Rapid")
 }
+
+// TestC04_Rollover: strings with escapes and backslash runs placed where stage 1 fills an index buffer (1408 indexes)
+// and starts the next one: the state carried between 64-byte blocks (odd backslash run, inside-quote, pseudo-structural
+// predecessor) must also survive the hand-over between index buffers.
+func TestC04_Rollover(t *testing.T) {
+	idx := 0
+	srcs := []struct {
+		src, exp string
+		bad      bool
+	}{
+		{`\"x`, `"x`, false}, {`\\`, `\`, false}, {`\\\"`, `\"`, false}, {`a\nb`, "a\nb", false}, {`é\"`, "é\"", false},
+		{`\\\\\\\"q`, `\\\"q`, false}, {`plain`, "plain", false}, {`\\"`, ``, true},
+	}
+	for _, tok := range []string{"0,", "[],", `"",`} {
+		per := structuralsOf(tok)
+		base := 1408 / per
+		for dk := -12; dk <= 12; dk++ {
+			for pad := 0; pad < 64; pad++ {
+				if !thorough() && (pad+dk)%3 != 0 {
+					continue
+				}
+				for si, s := range srcs {
+					idx++
+					if idx%envNShards != envShard {
+						continue
+					}
+					// the string under test follows base+dk dense tokens and pad spaces, then more content follows
+					prefix := "[" + strings.Repeat(tok, base+dk) + strings.Repeat(" ", pad)
+					off := len(prefix)
+					c := c04RolloverCase{Prefix: prefix, Src: []byte(s.src), Exp: []byte(s.exp), Bad: s.bad, Suffix: `,"` + strings.Repeat("t", 70+si) + `",1,2,3]`}
+					_ = off
+					c04RolloverRun(t, c)
+					col("C04").Eval(true, evidHash([]byte(prefix), c.Src), "class:index-buffer-rollover", boolClass("bad", s.bad))
+				}
+			}
+		}
+	}
+	col("C04").Completed("TestC04_Rollover")
+}
+
+type c04RolloverCase struct {
+	Prefix string `json:"prefix"`
+	Src    []byte `json:"src"`
+	Exp    []byte `json:"exp"`
+	Bad    bool   `json:"bad"`
+	Suffix string `json:"suffix"`
+}
+
+func c04RolloverCheck(c c04RolloverCase) error {
+	in := []byte(c.Prefix + `"` + string(c.Src) + `"` + c.Suffix)
+	v, model := rj.Classify(in)
+	if v == rj.Either {
+		return nil
+	}
+	if c.Bad != (v == rj.MustReject) {
+		return bugf("constructive expectation (bad=%v) disagrees with the reference parser (%v)", c.Bad, v)
+	}
+	var want [][]byte
+	if !c.Bad {
+		for _, e := range model.A {
+			if e.K == rj.Str {
+				want = append(want, e.S)
+			}
+		}
+	}
+	for _, cfg := range parseCfgs() {
+		pj, err := parseWith(cfg, append([]byte(nil), in...), false)
+		if c.Bad {
+			if err == nil {
+				return fmt.Errorf("[%s] malformed string accepted near an index-buffer rollover: prefix of %d bytes, source %q", cfg, len(c.Prefix), c.Src)
+			}
+			continue
+		}
+		if err != nil {
+			return fmt.Errorf("[%s] valid document rejected (%v): string %q starts at offset %d after %d bytes of dense tokens (index-buffer rollover)", cfg, err, c.Src, len(c.Prefix), len(c.Prefix))
+		}
+		got, err := stringsInOrder(pj)
+		if err != nil {
+			return fmt.Errorf("[%s] %v", cfg, err)
+		}
+		if len(got) != len(want) {
+			return fmt.Errorf("[%s] %d strings on the tape, want %d", cfg, len(got), len(want))
+		}
+		for i := range want {
+			if !bytes.Equal(got[i], want[i]) {
+				return fmt.Errorf("[%s] string %d decoded as %q, want %q (string under test %q at offset %d)", cfg, i, clip(got[i]), clip(want[i]), c.Src, len(c.Prefix))
+			}
+		}
+	}
+	return nil
+}
+
+var c04RolloverRun = register("C04", "rollover", c04RolloverCheck)
